@@ -6,6 +6,7 @@ mod hist;
 mod http;
 mod httpx;
 mod model;
+mod nu;
 mod props;
 mod runner;
 mod wire;
@@ -57,6 +58,7 @@ fn main() {
                 "C10" => props::c10::run(tier, seed, replay.as_deref()),
                 "C11" => props::c11::run(tier, seed, replay.as_deref()),
                 "C12" => props::c12::run(tier, seed, replay.as_deref()),
+                "C15" => props::c15::run(tier, seed, replay.as_deref()),
                 "C20" => props::c20::run(tier, seed, replay.as_deref()),
                 _ => {
                     eprintln!("no check for {id}");
